@@ -391,6 +391,45 @@ Fixpoint sdom (s : sexpr) : sp :=
   | SCMul _ a | SDivC a _ | SPtw a _ => sdom a
   end.
 
+(* ---- well-typedness by the DOCUMENTED rules (docstrings of the overloads), and whether the
+   result is a Functional instance ---- *)
+Fixpoint sfunc (s : sexpr) : bool :=
+  match s with
+  | SLeaf l => l_func l
+  | SConst _ _ | SZero _ => true
+  | SAdd a b | SSub a b => sfunc a && sfunc b
+  | SPow a n => sfunc a && (n =? 1)%Z
+  | SMul a _ | SNeg a | SMulV a _ | SAddC a _ | SCAdd _ a | SSubC a _ | SCSub _ a
+  | SMulC a _ | SCMul _ a | SDivC a _ => sfunc a
+  | SAddV _ _ | SVAdd _ _ | SSubV _ _ | SVSub _ _ | SVMul _ _ | SPtw _ _ => false
+  end.
+
+Fixpoint wt (s : sexpr) : bool :=
+  match s with
+  | SLeaf _ | SConst _ _ | SZero _ => true
+  | SAdd a b | SSub a b | SPtw a b =>
+      wt a && wt b && sp_eqb (sran a) (sran b) && sp_eqb (sdom a) (sdom b)
+  | SMul a b => wt a && wt b && sp_eqb (sran b) (sdom a)          (* right.range == left.domain *)
+  | SNeg a | SAddC a _ | SCAdd _ a | SSubC a _ | SCSub _ a | SMulC a _ | SCMul _ a => wt a
+  | SPow a n => wt a && (0 <? n)%Z && ((n =? 1)%Z || sp_eqb (sran a) (sdom a))
+  | SAddV a v | SVAdd v a | SSubV a v | SVSub v a => wt a && in_sp v (sran a)   (* v in A.range *)
+  | SMulV a v => wt a && in_sp v (sdom a)                                       (* v in A.domain *)
+  | SVMul v a => wt a && (in_sp v (sran a) || sp_eqb (sran a) SF)
+  | SDivC a c => wt a && negb (c =? nzero)
+  end.
+
+(* scalar additions whose operand is a field-valued operator that is NOT a Functional
+   (rejected by the current OperatorVectorSum: recorded finding) do not occur in s *)
+Fixpoint scalar_add_ok (s : sexpr) : Prop :=
+  match s with
+  | SLeaf _ | SConst _ _ | SZero _ => True
+  | SAdd a b | SSub a b | SMul a b | SPtw a b => scalar_add_ok a /\ scalar_add_ok b
+  | SAddC a _ | SCAdd _ a | SSubC a _ | SCSub _ a =>
+      (v_vecsum_field vt = true \/ sfunc a = true \/ sran a <> SF) /\ scalar_add_ok a
+  | SNeg a | SPow a _ | SAddV a _ | SVAdd _ a | SSubV a _ | SVSub _ a | SMulV a _ | SVMul _ a
+  | SMulC a _ | SCMul _ a | SDivC a _ => scalar_add_ok a
+  end.
+
 (* ------------------------------------------------- concrete leaves (the pool) *)
 Definition LMat (id : nat) (nc : nat) (m : list vec) : leaf :=            (* MatrixOperator etc. *)
   {| l_id := id; l_dom := SV nc; l_ran := SV (length m); l_lin := true; l_func := false;
